@@ -1102,7 +1102,8 @@ The statements live (with docstrings and non-vacuity examples) in `Lemmas/CodecD
 `Codec.Der.seqItems_encL`, `Codec.CertAsn1.certFieldsOfDer_known`, `C17.cert_der_roundtrip_derrd`,
 `Codec.CertAsn1.hexRead_hexUp`, `Codec.CertAsn1.parseHexU16_hexUp`, `Codec.CertAsn1.asn1_tbs_layout`,
 `C17.cert_x509_field_readers`; `Lemmas/CodecDerLinkWalk.lean`: `Codec.DerRd.x509New_tbs_refused`, `Codec.CertAsn1.cal_days`,
-`Codec.CertAsn1.calOf_agree`, `Codec.CertAsn1.run_validity_asn1`, `C17.cert_x509_tbs_walk`. -/
+`Codec.CertAsn1.calOf_agree`, `Codec.CertAsn1.run_validity_asn1`, `C17.cert_x509_tbs_walk`, `Codec.DerRd.fails_extLoop`,
+`C17.cert_x509_exts_read`, `C17.cert_x509_exts_eku_refused`. -/
 namespace C17
 open Codec Codec.Der Codec.CertAsn1
 
